@@ -16,12 +16,12 @@ CLAIMED = [c["property_id"] for c in json.load(open(os.path.join(V, "MANIFEST.js
 SEEDS = {
     "C01-m1": ("C01", "Prio3Average whose batch sum reaches 2^32 (decode_result narrowed through u32)", ["C01"]),
     "C01-m2": ("C01", ">= 128 aggregators together with a type that uses joint randomness (seed count computed in u8)", ["C01", "C16"]),
-    "C02-m1": ("C02", "a multi-proof instance (num_proofs >= 2) and a fault confined to one proof (any instead of all)", ["C16", "C05"]),
-    "C02-m2": ("C02", "a type instance with joint_rand_len() == 1 and a verifier message with a different seed", ["C16", "C07"]),
+    "C02-m1": ("C02", "a multi-proof instance (num_proofs >= 2) and a fault confined to one proof (any instead of all)", ["C02"]),
+    "C02-m2": ("C02", "a type instance with joint_rand_len() == 1 and a verifier message with a different seed", ["C02"]),
     "C03-m1": ("C03", "a correlated-randomness stream containing a rejected chunk inside the skipped region (p = 2^-32 per sample)", ["C11", "C16"]),
     "C03-m2": ("C03", "bits = 65536 and level 65535 (u16 bound off by one in try_from_prefixes)", ["C16", "C07"]),
-    "C04-m1": ("C04", "a malicious client at the leaf level (failed zero check turned into Done)", ["C16"]),
-    "C04-m2": ("C04", "a Done message delivered while the state is still in sketch round one", ["C16"]),
+    "C04-m1": ("C04", "a malicious client at the leaf level (failed zero check turned into Done)", ["C04"]),
+    "C04-m2": ("C04", "a Done message delivered while the state is still in sketch round one", ["C04"]),
     "C05-m1": ("C05", "a circuit with > 1 validity outputs and a root-of-unity query point / degenerate compression coefficient", ["C05"]),
     "C05-m2": ("C05", "num_shares >= 256 in the range-check constants (u8 narrowing)", ["C05"]),
     "C07-m1": ("C07", "the one byte string that encodes exactly the modulus", ["C07"]),
@@ -40,8 +40,20 @@ SEEDS = {
     "C13-m2": ("C13", "a batch whose first output share does not match the aggregation parameter", ["C13"]),
     "C16-m1": ("C16", "bits*len + chunk_length - 1 overflowing usize in SumVec::new", ["C16"]),
     "C16-m2": ("C16", "input_len in [2^19, 2^20 - 1] (capacity check lost its factor 2)", ["C16"]),
-    "C19-m1": ("C19", "a PRNG candidate that is an odd 2n-th root of unity", ["C16", "C10"]),
-    "C19-m2": ("C19", "input_len of the form 2^k - 1 (aggregator-side domain size)", ["C16"]),
+    "C19-m1": ("C19", "a PRNG candidate that is an odd 2n-th root of unity", ["C19"]),
+    "C05r2-m1": ("C05", "query randomness of a length other than query_rand_len() on a multi-output circuit (length check dropped, split from the tail)", ["C05"]),
+    "C05r2-m2": ("C05", "a gadget query point exactly equal to 0 (wrong fast path in the Lagrange evaluation)", ["C05", "C10"]),
+    "C07r2-m1": ("C07", "a Poplar1 aggregation parameter whose highest padding bit of the last prefix byte is set", ["C07"]),
+    "C07r2-m2": ("C07", "a PingPongMessage whose last length prefix exceeds the remaining input (silently truncated)", ["C07"]),
+    "C09r2-m1": ("C09", "a Field128 product whose pre-subtraction value lies in [p, p + 2^64 - 1) (equal-top-limb case of the final subtraction dropped)", ["C09"]),
+    "C09r2-m2": ("C09", "0 raised to the power p - 1 (exponent reduced mod p - 1 in the public pow)", ["C09"]),
+    "C10r2-m1": ("C10", "extend_values_to_power_of_2 on a buffer whose tail is not zero (accumulator not reset)", ["C10"]),
+    "C10r2-m2": ("C10", "ntt_inv with an input shorter than the transform size (scaling by 1/len instead of 1/size)", ["C10"]),
+    "C12r2-m1": ("C12", "a truncated ping-pong frame whose length prefix exceeds the remaining bytes (clamped instead of refused)", ["C12", "C07"]),
+    "C12r2-m2": ("C12", ">= 2 rounds and a VDAF whose verifier-share wire format depends on the round (share decoded with the stale state)", ["C12"]),
+    "C16r2-m1": ("C16", "an aggregator id >= 256 whose low byte is a valid id (range check after narrowing to u8)", ["C16"]),
+    "C16r2-m2": ("C16", "Flp::query with fewer query-randomness elements than validity outputs (split_at panics)", ["C16", "C05"]),
+    "C19-m2": ("C19", "input_len of the form 2^k - 1 (aggregator-side domain size)", ["C19"]),
 }
 
 
